@@ -42,6 +42,10 @@ FloorDivOK == Ready => \A n \in {1, 2, 3, 7, -1, -2} :
                     ELSE ~q.wk /\ rem(a.y, back.y) /\ rem(a.mo, back.mo) /\ rem(a.d, back.d) /\ rem(a.h, back.h) /\ rem(a.mi, back.mi) /\ rem(a.s, back.s)
 ToWeeksOK == Ready => LET x == IToWeeks(a)  q == IF x.wk THEN x.w ELSE 0 IN
                        (a.wk => x = a) /\ (~a.wk => 7 * q <= a.d /\ a.d < 7 * q + 7 /\ (x.wk <=> q # 0) /\ Secs(x) = <<7 * q, 0, 0>>)
+\* the standardize option re-spells the same duration, with the time fields in their ranges; doing it twice changes nothing
+StdOK == Ready => LET x == IStd(a) IN
+           /\ Val(x) = Val(a) /\ x.wk = a.wk /\ IStd(x) = x /\ IEq(x, a) /\ IHash(x) = IHash(a)
+           /\ (~x.wk => x.s \in 0..59 /\ x.mi \in 0..59 /\ x.h \in 0..23 /\ x.y = a.y /\ x.mo = a.mo)
 BoolOK == Ready => (IBool(a) <=> a # (IF a.wk THEN Wk(0) ELSE Un(0, 0, 0, 0, 0, 0)))
 On == TRUE
 Off == FALSE
